@@ -4,6 +4,7 @@
   (no Mathlib), so it links as a native executable.
 -/
 import Driver.Pure
+import Driver.ArenaD
 
 def splitLine (line : String) : List String :=
   (line.trimAscii.toString.splitOn " ").filter (· ≠ "")
@@ -16,9 +17,17 @@ partial def loopPure (h : IO.FS.Stream) (out : IO.FS.Stream) : IO Unit := do
   | none => out.putStrLn "bad-op"
   loopPure h out
 
+partial def loopArena (h : IO.FS.Stream) (out : IO.FS.Stream) (d : Driver.ArenaD.DState) : IO Unit := do
+  let line ← h.getLine
+  if line.isEmpty then return ()
+  let (d', r) := Driver.ArenaD.handle d (splitLine line)
+  out.putStrLn r
+  loopArena h out d'
+
 def main (args : List String) : IO UInt32 := do
   let stdin ← IO.getStdin
   let stdout ← IO.getStdout
   match args with
   | ["pure"] => loopPure stdin stdout; return 0
+  | ["arena"] => loopArena stdin stdout default; return 0
   | _ => IO.eprintln "usage: driver pure|arena|coll|strs|pool"; return 2
